@@ -633,29 +633,43 @@ def run(ctx):
         'inward step, maxsma None/0/at sma0/above, maxrit, sma0 None/0, all-fixed); real: noise-free '
         'Sersic(n=1,2,4)/Gaussian galaxies (eps 0.05-0.8, any PA, off-centre), all integration modes, fix_* '
         'flags, with the real fitter recorded; polar: exact-lattice centres and points (centre, axes, '
-        'quadrants, negative/large PA); non-trivial = at least one fit call; distinct = distinct parameters')
+        'quadrants, negative/large PA); three pinned real inputs (one per repaired defect) run first; '
+        'non-trivial = at least one fit call; distinct = distinct parameters')
     ctx.assumptions += [
         'EllipseFitter.fit (harmonic least squares, gradients, convergence tests) is NOT modelled: it is the '
         'oracle stream of (stop_code, valid) outcomes of the schedule model and the per-iteration observation '
         'list of the fitter model',
-        'theorems are about the model instantiated with exact rationals; the same polymorphic model '
-        'instantiated with IEEE binary64 (Coq primitive floats, vm_compute) is what is compared with Python',
-        'the schedule theorem is partial correctness: it speaks about streams on which fit_image returns '
-        '(the real outward loop need not terminate for an adversarial fitter)',
-        'schedule theorem premise: an invalid fit outcome has stop code 3 (true of every return statement of '
-        'EllipseFitter.fit; proved of the fitter model as fit_invalid_only_code3)',
+        'theorems are about the model instantiated with exact rationals (twins: any carrier); the same polymorphic '
+        'model instantiated with IEEE binary64 (Coq primitive floats, vm_compute) is what is compared with Python',
+        'the schedule theorem is partial correctness: it speaks about streams and fuels on which fit_image returns '
+        '(the real outward loop need not terminate for an adversarial fitter; fit_image_fuel_independent_thm shows '
+        'the fuel never changes a run that ends)',
+        'schedule theorem premises: step > 0, sma0 > 0, minsma <= sma0 <= maxsma, and an invalid fit outcome has '
+        'stop code 3 (true of every return statement of EllipseFitter.fit; proved of the fitter model as '
+        'fit_invalid_only_code3)',
         'twins theorem premise: both twins use the same sqrt/asin/square; math.asin vs numpy.arcsin and '
         'pow(x,2) vs x*x differ by rounding in CPython/numpy, so twin agreement on arbitrary floats is '
         'tested to 1e-9 only (support), and compared bit-exactly against the model with per-twin arcsine tables',
+        'the model mirrors the REPAIRED code: fixes/C20-1 (inward loop tests the sma before each fit), C20-2 '
+        '(zero-gradient exit of the fitter), C20-3 (nearest-neighbour integrator rounds; not modelled, tested)',
+        'observation (outside the quantifier of the property): fit_image(maxrit=x) without a truthy maxsma never '
+        'returns (beyond maxrit nothing is fitted, so nothing fails and the outward loop has no exit); such runs are '
+        'cut by a cap on calls / sma and must coincide with the model running out of fuel',
     ]
     ctx.cov['partial_clauses'] = [
         'recovery of centre/eps/PA/intensity within the reported errors: numerics of an iterative fitter, '
-        'tested only (support:recovery_well_sampled), gross deviations are reported as violations',
+        'tested only (support:recovery_well_sampled) with the rule |fit - truth| <= max(small absolute tolerance, '
+        '5 x reported error) at converged well-sampled isophotes; deviations are reported as violations',
+        'convergence inside the basin (support:convergence_rate): at least 60 % of the well-sampled radii of the '
+        'non-nearest-neighbour fits end with stop code 0 (observed ~ 90-99 %); an empty result counts as 8 failures',
         'build_ellipse_model reproduces the image inside the fitted region: spline numerics, tested only '
-        '(support:model_image)',
+        '(support:model_image; median relative residual <= 3 %, 90th percentile <= 10 %)',
         'fixed PA is honoured only while the ellipticity corrector never produces eps < 0 '
-        '(fixed_pa_unchanged_partial; _check_conditions rotates PA by pi/2 then)',
+        '(fixed_params_kept_partial; _check_conditions rotates PA by pi/2 then); on real fits every fix_* request '
+        'is compared exactly with the returned isophotes',
         'sma_schedule: partial correctness (returns) and outcome-stream premise invalid => code 3',
+        '_fix_last_isophote geometry source (previous isophote outwards, first isophote inwards): tested on real '
+        'fits only',
     ]
     terms, meta = [], []
 
